@@ -55,7 +55,12 @@ func (c *FnCtx) doCall(res *ssa.Call, cc *ssa.CallCommon, site ssa.Instruction) 
 	} else {
 		resTy = cc.Signature().Results()
 	}
+	var afterKey string
+	var afterArgs []Val
 	setRes := func(vs []Val) {
+		if afterKey != "" {
+			c.afterCallAnchor(afterKey, afterArgs, vs)
+		}
 		if res == nil {
 			return
 		}
@@ -100,6 +105,10 @@ func (c *FnCtx) doCall(res *ssa.Call, cc *ssa.CallCommon, site ssa.Instruction) 
 		ord = c.calleeOrd[shortName(name)]
 	}
 	c.callAnchor(site, name, ord, args)
+	if name != "" {
+		afterKey = fmt.Sprintf("after call %s#%d", shortName(name), ord)
+		afterArgs = args
+	}
 
 	if k, ok := isNoopCallee(name); ok {
 		c.used["model: "+k+" calls are no-ops on verified state"] = true
@@ -147,7 +156,10 @@ func (c *FnCtx) doCall(res *ssa.Call, cc *ssa.CallCommon, site ssa.Instruction) 
 	if name == "" {
 		name = "dynamic call"
 	}
-	c.havocCalls[shortName(name)]++
+	if !c.discover {
+		c.havocCalls[shortName(name)]++
+	}
+	c.frameCall(shortName(name))
 	c.havocAll()
 	setRes(freshResults("call"))
 }
@@ -195,6 +207,7 @@ func (c *FnCtx) applyContract(fc *FuncContract, fn *ssa.Function, cc *ssa.CallCo
 	// frame
 	switch {
 	case fc.ModAll || (!fc.HasMod && !(fn != nil && c.g.isPure(fn)) && !fc.Trusted):
+		c.frameCall(shortName(name))
 		c.havocAll()
 	case fc.ModNone || !fc.HasMod:
 	default:
@@ -240,6 +253,14 @@ func (c *FnCtx) applyContract(fc *FuncContract, fn *ssa.Function, cc *ssa.CallCo
 	return out
 }
 
+// frameCall: a callee that may modify anything is only allowed in a function whose own frame is "*".
+func (c *FnCtx) frameCall(callee string) {
+	if c.fc == nil || c.discover || !c.fc.HasMod || c.fc.ModAll || c.abstract {
+		return
+	}
+	c.check(fmt.Sprintf("frame:call:%d", c.ordinal("framecall")), "callee "+callee+" has no frame (may modify anything) but the function declares a modifies clause", "false")
+}
+
 // havocClause havocs the location(s) named by a modifies clause.
 func (c *FnCtx) havocClause(env *Env, m Clause) {
 	defer func() {
@@ -256,10 +277,23 @@ func (c *FnCtx) havocClause(env *Env, m Clause) {
 			switch id.Name {
 			case "elems": // elems(s): all elements of slice s (fields of struct elements included)
 				s := env.tr(x.Args[0])
+				c.frameCalleeElems(s)
 				c.havocSliceElems(s, "", env)
 				return
 			case "heap": // heap(T.f): the whole field heap
 				c.havocNamed(typeArgText(x.Args[0]), env)
+				return
+			case "pkgheap": // pkgheap("internal/cache"): every heap array of types declared in that package
+				st, ok := x.Args[0].(*EStr)
+				if !ok {
+					env.fail("pkgheap needs a string literal")
+				}
+				c.frameCalleePkg(st.Val)
+				for _, name := range heapNamesSorted(c.heap) {
+					if heapInPkg(name, st.Val) {
+						c.havocHeap(name)
+					}
+				}
 				return
 			case "ghost":
 				n := typeArgText(x.Args[0])
@@ -276,7 +310,50 @@ func (c *FnCtx) havocClause(env *Env, m Clause) {
 	}
 	v.Opaque, v.Num = false, nil
 	l := c.resolve(v)
+	if c.fc != nil && !c.discover && c.fc.HasMod && !c.fc.ModAll && !c.abstract {
+		c.frameCheckLoc(l, "callee frame")
+	}
 	c.havocLoc(l)
+}
+
+// frameCalleePkg: a callee that modifies pkgheap(p) needs the caller's frame to include it.
+func (c *FnCtx) frameCalleePkg(pkg string) {
+	if c.fc == nil || c.discover || !c.fc.HasMod || c.fc.ModAll || c.abstract {
+		return
+	}
+	ok := "false"
+	for _, m := range c.fc.Modifies {
+		if call, isCall := m.E.(*ECall); isCall {
+			if id, isID := call.Fun.(*EIdent); isID && id.Name == "pkgheap" && len(call.Args) == 1 {
+				if st, isStr := call.Args[0].(*EStr); isStr && st.Val == pkg {
+					ok = "true"
+				}
+			}
+		}
+	}
+	c.check(fmt.Sprintf("frame:callee:%d", c.ordinal("framecallee")), "callee modifies pkgheap("+pkg+"), which must be within this function's modifies clause", ok)
+}
+
+func (c *FnCtx) frameCalleeElems(s Val) {
+	if c.fc == nil || c.discover || !c.fc.HasMod || c.fc.ModAll || c.abstract {
+		return
+	}
+	reg := fold("(s_reg " + s.T + ")")
+	var okc []string
+	for _, a := range c.allocs {
+		okc = append(okc, eq(reg, a))
+	}
+	env := c.preEnv()
+	env.heap = c.entry
+	for _, m := range c.fc.Modifies {
+		if call, isCall := m.E.(*ECall); isCall {
+			if id, isID := call.Fun.(*EIdent); isID && id.Name == "elems" && len(call.Args) == 1 {
+				t := env.tr(call.Args[0])
+				okc = append(okc, eq(reg, "(s_reg "+t.T+")"))
+			}
+		}
+	}
+	c.check(fmt.Sprintf("frame:callee:%d", c.ordinal("framecallee")), "callee modifies elems(...) of a slice that must be within this function's modifies clause", or(okc...))
 }
 
 func (c *FnCtx) havocLoc(l location) {
@@ -530,4 +607,17 @@ func (c *FnCtx) copyOp(cc *ssa.CallCommon) Val {
 	c.define("(forall ((i " + I + ")) (! (= (select " + arr + " i) (ite (and " + c.idxLe(c.mode.idxLit(0), rel) + " " + c.idxLt(rel, nn) + ") " + src + " (select " + oldArr + " i))) :pattern ((select " + arr + " i))))")
 	c.setRegion(name, "(s_reg "+d.T+")", arr)
 	return Val{T: nn, Ty: types.Typ[types.Int]}
+}
+
+// heapInPkg: the heap array holds state of a type declared in package pkg (short path).
+func heapInPkg(name, pkg string) bool {
+	n := strings.Trim(name, "|")
+	for _, pre := range []string{"H ", "Elems ", "Cell ", "MapHas ", "MapVal ", "MapLen "} {
+		if strings.HasPrefix(n, pre) {
+			rest := strings.TrimPrefix(n, pre)
+			rest = strings.TrimLeft(rest, "*[]")
+			return strings.HasPrefix(rest, pkg+".")
+		}
+	}
+	return false
 }
